@@ -82,10 +82,16 @@ impl MachineEngine {
 
 impl Engine for MachineEngine {
     fn step(&mut self, toks: &[&str], out: &mut Vec<String>) {
-        if let ["init", cm, b] = toks {
+        if let ["init", cm, b, water @ ..] = toks {
             return match (cm.parse::<u16>(), b.parse::<usize>()) {
                 (Ok(cm), Ok(b)) => {
-                    let tuning = ConnectionTuning::default().mem_channel_bound(b);
+                    let mut tuning = ConnectionTuning::default().mem_channel_bound(b);
+                    // optional: high and low water marks of the write buffer
+                    if let [high, low] = water {
+                        if let (Ok(h), Ok(l)) = (high.parse::<usize>(), low.parse::<usize>()) {
+                            tuning = tuning.buffered_writes_high_water(h).buffered_writes_low_water(l);
+                        }
+                    }
                     self.m = Some(Machine::new(cm, tuning).expect("machine"));
                     self.cons.clear();
                     self.lst.clear();
